@@ -360,6 +360,7 @@ static int recv_events(m_ctx_t *c, int timeout) {
 static int m_ctx_loop_events(m_ctx_t *c, int max_events) {
     M_PARAM_ASSERT(max_events > 0);
     M_LOG_ASSERT(c->state == M_CTX_IDLE, "Context already looping.", -EINVAL);
+    M_LOG_ASSERT(!c->destroying, "Context is being deregistered.", -EINVAL);
 
     int ret = loop_start(c, max_events);
     if (ret == 0) {
@@ -510,7 +511,8 @@ _public_ int m_ctx_dispatch(void) {
     M_CTX_ASSERT();
 
     if (c->state == M_CTX_IDLE) {
-        /* Ok, start now */
+        /* Ok, start now (unless the context is being deregistered) */
+        M_LOG_ASSERT(!c->destroying, "Context is being deregistered.", -EINVAL);
         return loop_start(c, M_CTX_DEFAULT_EVENTS);
     }
     
